@@ -719,6 +719,7 @@ func (b *Block) getNumVoxels(labelIndex uint32) (labelVoxels uint64) {
 	var indexPos uint32
 	var bitpos, subBlockNum int
 	var sx, sy, sz int32
+	var isTarget [SubBlockSize * SubBlockSize * SubBlockSize]bool // per position of a sub-block's index list
 	for sz = 0; sz < gz; sz++ {
 		for sy = 0; sy < gy; sy++ {
 			for sx = 0; sx < gx; sx, subBlockNum = sx+1, subBlockNum+1 {
@@ -737,12 +738,13 @@ func (b *Block) getNumVoxels(labelIndex uint32) (labelVoxels uint64) {
 				default:
 				}
 
+				// After a merge several positions of a sub-block's index list can name the same slot
+				// of the label table: every one of them counts.
 				var found bool
-				var targetIndex uint16
 				for i := uint16(0); i < numSBLabels; i++ {
-					if b.SBIndices[indexPos] == labelIndex {
+					isTarget[i] = b.SBIndices[indexPos] == labelIndex
+					if isTarget[i] {
 						found = true
-						targetIndex = i
 					}
 					indexPos++
 				}
@@ -773,7 +775,7 @@ func (b *Block) getNumVoxels(labelIndex uint32) (labelVoxels uint64) {
 								index |= uint16(b.SBValues[bytepos+1])
 								index >>= uint(16 - bithead - bits)
 							}
-							if index == targetIndex {
+							if index < numSBLabels && isTarget[index] {
 								labelVoxels++
 							}
 							bitpos += bits
